@@ -54,19 +54,24 @@ struct inputs {
 DECLARE_INPUTS
 
 /* ---- codec stubs ---- */
-struct encoder_state { unsigned id; };
+struct encoder_state { unsigned id; unsigned fed; bool encoded; };
+static unsigned n_init, n_collect, n_encode; static unsigned long init_mbs; static unsigned init_cf;
+static const uint8_t *collect_buf; static size_t collect_len; static struct encoder_state *collect_enc, *encode_enc;
+static bool seq_full;          /* sequential-mode stub: does the block become full in this call? */
 size_t encoder_alloc_size(unsigned long mbs) { (void)mbs; return sizeof(struct encoder_state); }
-void encoder_init(struct encoder_state *e, unsigned long mbs, unsigned cf) { (void)mbs; (void)cf; e->id = 0; }
+void encoder_init(struct encoder_state *e, unsigned long mbs, unsigned cf) { n_init++; init_mbs = mbs; init_cf = cf; e->id = n_init; e->fed = 0; e->encoded = false; }
 int collect(struct encoder_state *e, const uint8_t *buf, size_t *buf_sz)
 {
-  (void)e; (void)buf;
-  /* consumes a non-empty prefix; the block is full exactly when something is left */
+  n_collect++; collect_buf = buf; collect_len = *buf_sz; collect_enc = e;
+  /* consumes a non-empty prefix; the block is full exactly when something is left (or, in a sequential run, when the
+     harness says the block filled up exactly at the end of this buffer) */
   size_t left = IN.collect_left;
   if (left >= *buf_sz) left = *buf_sz - 1;
+  e->fed += (unsigned)(*buf_sz - left);
   *buf_sz = left;
-  return left > 0;
+  return left > 0 || seq_full;
 }
-size_t encode(struct encoder_state *e, uint32_t *crc) { (void)e; *crc = 0x1234; return 8; }
+size_t encode(struct encoder_state *e, uint32_t *crc) { n_encode++; encode_enc = e; e->encoded = true; *crc = 0x1234; return 8; }
 void *transmit(struct encoder_state *e, void *buf) { (void)e; return buf; }
 
 /* forward declarations used by the real code below */
@@ -293,9 +298,60 @@ void h_rg_collect(void)
   if (IN.collect_left > 0) WITNESS("input_block_split");
   /* ghost: while the task runs outside the lock it holds one work unit */
   g_collect++; g_iblk++; collect_mode = true; locks_in_task = 0;
+  struct in_blk *ib = peek(coll_q);
+  struct position p0 = ib->pos; const unsigned char *nx0 = ib->next; size_t left0 = ib->left;
+  n_init = n_collect = n_encode = 0; seq_full = false; bs100k = 1 + IN.level[0] % 9u;
+  ASSUME(left0 >= 1);
   do_collect();
   g_collect--;                          /* the work unit now travels with the block in trans_q */
   PROP(lock_depth == 1, "task returns holding the scheduler lock");
+  check_inv("end");
+  /* C04 / C03: every piece is packed on its own, by a fresh encoder of capacity level*100000, greedily from where the
+     previous block of this piece stopped */
+  PROP(n_init == 1 && init_mbs == bs100k * 100000ul && n_collect == 1 && n_encode == 1 && collect_enc == encode_enc, "one fresh encoder of the level's capacity per block; it is encoded after one collect call");
+  PROP(collect_buf == nx0 && collect_len == left0, "the block is collected from the unread rest of its input piece");
+  { size_t used = left0 - (IN.collect_left >= left0 ? left0 - 1 : IN.collect_left);
+    PROP(ib->left == left0 - used && (ib->left == 0 || ib->next == nx0 + used), "the input piece remembers how far it was consumed"); }
+}
+
+/* ---- sequential mode: packing runs across input pieces (C04) ---- */
+void h_rg_collect_seq(void)
+{
+  LOAD_INPUTS();
+  rg_mode = false; load_queue_state(); ultra = true; collect_token = true; rg_mode = true; rely_k = 0; lock_depth = 1;
+  /* a block left unfinished by the previous piece may exist; it then holds a work unit */
+  struct work_blk *uw = 0; struct encoder_state *uenc = 0;
+  if (IN.perm & 1) {
+    uw = XMALLOC(struct work_blk); uenc = malloc(sizeof *uenc); ASSUME(uenc != 0); uenc->id = 77; uenc->fed = 5; uenc->encoded = false;
+    uw->enc = uenc; uw->pos.major = 0; uw->pos.minor = 0; uw->next = uw->pos; uw->weight = 5;
+    ASSUME(g_collect >= 1);              /* ghost: one of the held work units belongs to the unfinished block (no task runs for it) */
+  }
+  unfinished_work = uw;
+  ASSUME(size(coll_q) >= 1);             /* (the end-of-input flush with an empty queue is the eof branch below) */
+  ASSUME(can_collect_seq());
+  WITNESS("collect_seq_enabled");
+  struct in_blk *ib = peek(coll_q);
+  const unsigned char *nx0 = ib->next; size_t left0 = ib->left;
+  ASSUME(left0 >= 1);
+  n_init = n_collect = n_encode = 0; bs100k = 1 + IN.level[0] % 9u;
+  seq_full = (IN.perm & 2) != 0;
+  bool full = (IN.collect_left > 0 && left0 > 1) || seq_full;
+  if (uw) WITNESS("block_continued_from_previous_piece");
+  if (!full) WITNESS("block_stays_unfinished");
+  if (!uw) { g_collect++; }             /* a new block takes a work unit */
+  g_iblk++; collect_mode = true; locks_in_task = 0;
+  do_collect_seq();
+  PROP(lock_depth == 1, "task returns holding the scheduler lock");
+  PROP(collect_token, "the collector role is handed back");
+  PROP(n_collect == 1 && collect_buf == nx0 && collect_len == left0, "the next input piece is fed to the block being packed");
+  if (uw) PROP(n_init == 0 && collect_enc == uenc, "a block left unfinished by the previous piece is continued, not restarted (packing runs across pieces, C04)");
+  else PROP(n_init == 1 && init_mbs == bs100k * 100000ul, "a new block gets a fresh encoder of the level's capacity");
+  if (full) {
+    PROP(n_encode == 1 && encode_enc == collect_enc && unfinished_work == 0, "a full block is encoded and queued");
+    g_collect--;
+  } else {
+    PROP(n_encode == 0 && unfinished_work != 0 && unfinished_work->enc == collect_enc, "a block that is not yet full waits for the next piece");
+  }
   check_inv("end");
 }
 
